@@ -86,12 +86,13 @@ def reachability(ctx):
 
     def rec(x):
         return "%s(%s,P%d,P%d)" % (R, x, i_reg, i_set)
-    t = show(N.term(fn["body"]), 10 ** 6)
+    U = lambda x: x.replace("'()'", "()")          # the unit value, however it is written
+    t = U(show(N.term(fn["body"]), 10 ** 6))
     head = "if(HashSet::insert(P%d,P%d)){" % (i_set, i_id)
-    ctx.expect(t.startswith(head) and t.endswith("else{'()'}"), "C08.3", "reach/guard-and-root", fn["sp"],
+    ctx.expect(t.startswith(head) and t.endswith("else{()}"), "C08.3", "reach/guard-and-root", fn["sp"],
                "visited check first; the root id itself is inserted; nothing happens for an id seen before", "traversal starts with: " + t[:160])
     TP = "for(%s.type_params){if(let v1::Some($)=elem(%s.type_params).ty){%s}else{'()'}}" % (TY, TY, rec("elem(%s.type_params).ty@v1::Some.0.id" % TY))
-    ctx.expect(q.canon_expected(TP) in t, "C08.3", "reach/type-params", fn["sp"], "every non-skipped type parameter is visited", "type-parameter loop changed")
+    ctx.expect(U(q.canon_expected(TP)) in t, "C08.3", "reach/type-params", fn["sp"], "every non-skipped type parameter is visited", "type-parameter loop changed")
     arms = {
         "Composite": "TypeDef::Composite($)=>for(%s.type_def@TypeDef::Composite.0.fields){%s}" % (TY, rec("elem(%s.type_def@TypeDef::Composite.0.fields).ty.id" % TY)),
         "Variant": "TypeDef::Variant($)=>for(%s.type_def@TypeDef::Variant.0.variants){for(elem(%s.type_def@TypeDef::Variant.0.variants).fields){%s}}" % (
@@ -105,7 +106,7 @@ def reachability(ctx):
     }
     why = {"Primitive": "primitives mention no type", "BitSequence": "bit sequences are not traversed (exception stated by the property: bit-order markers are substituted)"}
     for v, frag in arms.items():
-        ctx.expect(q.canon_expected(frag) in t, "C08.3", "reach/" + v, fn["sp"], why.get(v, "every %s child is visited" % v),
+        ctx.expect(U(q.canon_expected(frag)) in t, "C08.3", "reach/" + v, fn["sp"], why.get(v, "every %s child is visited" % v),
                    "the %s arm of the reachability traversal no longer visits its children as expected (`%s` not found)" % (v, frag[:120]))
     for v in q.variants_of(P, "TypeDef", "scale_info"):
         if v not in arms:
